@@ -380,3 +380,191 @@ def entry_cases(jobs):
         bw.cleanup()
         out.append({"id": job["id"], "world": w, "steps": steps})
     return out
+
+
+# ---------------------------------------------------------------------------
+# C16 / C08: graphs of functions.  TLC behaviours of Ovld.tla replayed on real
+# Ovld objects; probes compared with a brand-new function holding Eff(n).
+# ---------------------------------------------------------------------------
+class _Graph:
+    """Real objects + the Python-side record of what was accepted (used only
+    to build the fresh oracle; the judge re-derives it and checks)."""
+
+    def __init__(self, nsig=2):
+        import linecache
+
+        from ovld import call_next, recurse
+
+        self.linecache = linecache
+        self.classes = _mk_classes([[], [1]] + [[k] for k in range(2, nsig + 1)])
+        self.leafcls = type("Leaf", (), {"__module__": "vfworld"})
+        self.log = []
+        self.ns = {"LOG": self.log, "call_next": call_next, "recurse": recurse, "Leaf": self.leafcls,
+                   "__name__": "vfworld", "LEAF": self.leafcls()}
+        for c, k in enumerate(self.classes):
+            if c >= 2:
+                self.ns[f"K{c}"] = k
+        self.nodes = {}
+        self.mix = {}
+        self.own = {}
+        self.fns = {}
+        self.fnc = {}
+        self.serial = 0
+
+    def make_fn(self, name, src):
+        self.serial += 1
+        fname = f"<vf:g{id(self)}-{self.serial}>"
+        self.linecache.cache[fname] = (len(src), None, src.splitlines(True), fname)
+        exec(compile(src, fname, "exec"), self.ns, self.ns)
+        return self.ns[name]
+
+    def method(self, mid, sid):
+        # a refused registration does not consume the id: key by (id, signature)
+        if (mid, sid) not in self.fnc:
+            src = f"def m{mid}(x: K{sid + 1}):\n    LOG.append({mid})\n    return call_next(x)\n"
+            self.fnc[(mid, sid)] = self.make_fn(f"m{mid}", src)
+        return self.fnc[(mid, sid)]
+
+    def eff(self, n):
+        e = {}
+        for p in self.mix[n]:
+            e.update(self.eff(p))
+        e.update(self.own[n])
+        return e
+
+    def pushdown(self, t, s, r, m):
+        if (s, r) in t:
+            self.pushdown(t, s, r - 1, t[(s, r)])
+        t[(s, r)] = m
+
+    def fresh(self, n):
+        from ovld import Ovld
+
+        e = self.eff(n)
+        ov = Ovld()
+        for (s, r) in sorted(e, key=lambda k: (k[0], k[1])):
+            ov.register(self.fns[e[(s, r)]])
+        return ov, [[s, r, e[(s, r)]] for (s, r) in sorted(e)]
+
+    def probe(self, ov, cls):
+        from .observe import classify
+
+        del self.log[:]
+        try:
+            ov(self.classes[cls]())
+            kind = "run"
+        except BaseException as exc:  # noqa
+            kind = classify(exc)
+            exc.__traceback__ = None
+        return {"kind": kind, "chain": list(self.log)}
+
+    def cleanup(self):
+        for k in [k for k in self.linecache.cache if k.startswith("<ovld:") or k.startswith("<vf:")]:
+            del self.linecache.cache[k]
+
+    # --- C08: every node gets, at creation, a marker method on Leaf, a
+    # recursive method on its own class R<n> (-> recurse(MID)) and, for roots,
+    # a method on Mid (-> recurse(LEAF)): R<a> -> Mid -> Leaf through recurse.
+    def add_extras(self, n, root):
+        ns = self.ns
+        if "Mid" not in ns:
+            ns["Mid"] = type("Mid", (), {"__module__": "vfworld"})
+            ns["MID"] = ns["Mid"]()
+        ns[f"R{n}"] = type(f"R{n}", (), {"__module__": "vfworld"})
+        ov = self.nodes[n]
+        ov.register(self.make_fn(f"leaf{n}", f"def leaf{n}(x: Leaf):\n    return {n}\n"))
+        ov.register(self.make_fn(f"rec{n}", f"def rec{n}(x: R{n}):\n    return recurse(MID)\n"))
+        if root:
+            ov.register(self.make_fn(f"mid{n}", f"def mid{n}(x: Mid):\n    return recurse(LEAF)\n"))
+
+    def ancestors(self, n):
+        out = set()
+        for p in self.mix[n]:
+            out |= {p} | self.ancestors(p)
+        return out
+
+    def rprobe(self, n, a):
+        try:
+            marker = self.nodes[n](self.ns[f"R{a}"]())
+        except BaseException as exc:  # noqa
+            marker = 0
+            exc.__traceback__ = None
+        if not isinstance(marker, int):
+            marker = -1
+        return {"op": "rprobe", "n": n, "via": f"R{a}", "marker": marker}
+
+
+def graph_replay(jobs):
+    from ovld import Ovld
+
+    out = []
+    for job in jobs:
+        nsig = job.get("nsig", 2)
+        g = _Graph(nsig)
+        steps = []
+        drift = None
+        N = job["n"]
+        for j, st in enumerate(job["steps"]):
+            o = st["obs"]
+            rec = {k: v for k, v in o.items()}
+            n = o["n"]
+            try:
+                if o["op"] == "create":
+                    g.nodes[n] = Ovld(mixins=[g.nodes[p] for p in o["mixins"]], linkback=o["linkback"])
+                    g.mix[n] = list(o["mixins"])
+                    g.own[n] = {}
+                    if job.get("recurse", True):
+                        g.add_extras(n, root=not o["mixins"])
+                elif o["op"] == "register":
+                    fn = g.method(o["m"], o["sid"])
+                    try:
+                        g.nodes[n].register(fn)
+                        rec["out"] = "ok"
+                        g.fns[o["m"]] = fn
+                        g.pushdown(g.own[n], o["sid"], 0, o["m"])
+                    except Exception as e:
+                        if "locked" not in str(e):
+                            raise
+                        rec["out"] = "refused"
+                elif o["op"] == "unregister":
+                    try:
+                        g.nodes[n].unregister(g.fns[o["m"]])
+                        rec["out"] = "ok"
+                        g.own[n] = {k: v for k, v in g.own[n].items() if v != o["m"]}
+                    except Exception as e:
+                        if "locked" not in str(e):
+                            raise
+                        rec["out"] = "refused"
+                elif o["op"] == "add_mixins":
+                    try:
+                        g.nodes[n].add_mixins(*[g.nodes[p] for p in o["mixins"]])
+                        rec["out"] = "ok"
+                        g.mix[n] += list(o["mixins"])
+                    except Exception as e:
+                        if "locked" not in str(e):
+                            raise
+                        rec["out"] = "refused"
+                steps.append(rec)
+                # probes: the used node, and every node already built (no side effect)
+                targets = [n] if o["op"] == "use" else []
+                targets += [k for k, ov in g.nodes.items() if ov._compiled and k not in targets]
+                for k in targets:
+                    if job.get("recurse", True):
+                        for a in sorted(g.ancestors(k) | {k}):
+                            steps.append(g.rprobe(k, a))
+                    if not g.eff(k):
+                        continue
+                    fr, fe = g.fresh(k)
+                    for cls in range(nsig + 1, 1, -1):
+                        steps.append({"op": "probe", "n": k, "cls": cls, "obs": g.probe(g.nodes[k], cls),
+                                      "fresh": g.probe(fr, cls), "fresh_eff": fe})
+            except Exception:
+                steps.append({"op": "error", "n": n, "err": traceback.format_exc()[-600:]})
+                break
+            proj = {"locked": [bool(g.nodes[k]._locked) if k in g.nodes else False for k in range(1, N + 1)],
+                    "compiled": [bool(g.nodes[k]._compiled) if k in g.nodes else False for k in range(1, N + 1)]}
+            if drift is None and (proj != st["proj"] or rec.get("out") != o.get("out")):
+                drift = {"step": j, "op": o, "real_out": rec.get("out"), "real": proj, "model": st["proj"]}
+        g.cleanup()
+        out.append({"id": job["id"], "n": N, "steps": steps, "drift": drift})
+    return out
